@@ -26,6 +26,7 @@ theorem c11_key_injective (fs : List Field) (hd : delimited fs = true) (env env'
     ∀ f ∈ fs, f.dep.view env = f.dep.view env' :=
   encode_inj fs hd env env' hw hw' h
 
+set_option maxRecDepth 8000 in
 /-- hypotheses of `c11_key_injective` hold for the remote authorizer of the current source and two requests that differ
 only by a shifted key/value boundary — and the written bytes do differ -/
 example : delimited remoteAuthorizer = true ∧ wt remoteAuthorizer envA = true ∧ wt remoteAuthorizer envB = true ∧
@@ -59,7 +60,7 @@ theorem c11_key_deterministic (H : Bytes → Bytes) (fs : List Field) (ho : orde
 /-- hypotheses of `c11_key_deterministic`: three values iterated in opposite orders -/
 example : ordered remoteAuthorizer = true ∧ Reorder envA envA' ∧ envA.nodupKeys :=
   ⟨by decide, ⟨rfl, rfl, rfl, rfl, fun _ => (List.reverse_perm _).symm⟩,
-   fun s => by by_cases h : s = "values" <;> simp [envA, h]⟩
+   fun s => by by_cases h : s = "arg1" <;> simp [envA, h]⟩
 
 /-- …and that condition is needed: a direct range over a map (as in the original `Endpoint.Hash` and
 `calculateCacheKey`) makes the written bytes depend on the iteration order as soon as the map has two entries. -/
@@ -89,23 +90,33 @@ example : legacyEndpoint = [.raw "e.URL", .raw "e.Method"] ++ .mapRaw "e.Headers
 
 /-! ## Mechanisms: enabling the cache never changes a decision -/
 
-/-- **Transparency.** If equal keys imply equal fresh results, and the rule-level validation is either repeated on a hit
-or the same for requests with equal keys, then in every history (any length, any times, any mix of rules and requests)
+/-- **Transparency.** If a value read back from the cache is the value that was stored (`Lossless`), equal keys imply
+equal fresh results, and the rule-level validation is either repeated on a hit or the same for requests with equal keys, then in every history (any length, any times, any mix of rules and requests)
 every request observes exactly the decision it would get without a cache. -/
-theorem c11_transparent {Req Resp : Type} (m : Mech Req Resp) (h : List (Nat × Req))
+theorem c11_transparent {Req Resp : Type} (m : Mech Req Resp) (h : List (Nat × Req)) (hl : Lossless m)
     (hs : KeySoundOn m (h.map (·.2))) : Transparent m h :=
-  run_sound m (h.map (·.2)) hs h Store.empty (inv_empty m _)
+  run_sound m hl (h.map (·.2)) hs h Store.empty (inv_empty m _)
     (fun tr htr => List.mem_map.mpr ⟨tr, htr, rfl⟩)
 
 /-- `KeySoundOn` holds for `demo true` on a history in which rule 5 asks for a token cached under rule 1, and the
 decisions are those of the uncached mechanism (the third request is rejected although it hits) -/
-example : KeySoundOn (demo true) ([(0, (3, 1)), (1, (3, 1)), (2, (3, 5)), (3, (9, 5))].map (·.2)) ∧
+example : Lossless (demo true) ∧ KeySoundOn (demo true) ([(0, (3, 1)), (1, (3, 1)), (2, (3, 5)), (3, (9, 5))].map (·.2)) ∧
     (run (demo true) Store.empty [(0, (3, 1)), (1, (3, 1)), (2, (3, 5)), (3, (9, 5))]).map (fun s => (s.out, s.hit)) =
       [(.ok 3, false), (.ok 3, true), (.rejected, true), (.ok 9, false)] := by
-  refine ⟨?_, by decide⟩
+  refine ⟨fun _ => rfl, ?_, by decide⟩
   intro r _ r' _ hk
   have : r.1 = r'.1 := by simpa [demo] using congrArg List.length hk
   exact ⟨by simp [demo, this], Or.inl rfl⟩
+
+/-- `Lossless` is needed: if the serialisation used for caching changes a value (the remote authorizer and the generic
+contextualizer cached a YAML or form payload as JSON, see fixes/C11-7), the identical request is decided differently
+once it is answered from the cache — with a sound key and validation repeated on every hit. -/
+theorem c11_lossy_cache_changes_decision :
+    KeySoundOn lossy ([(0, (3, 3)), (1, (3, 3))].map (·.2)) ∧ ¬ Transparent lossy [(0, (3, 3)), (1, (3, 3))] := by
+  refine ⟨?_, by unfold Transparent; decide⟩
+  intro r _ r' _ hk
+  have : r.1 = r'.1 := by simpa [lossy, demo] using congrArg List.length hk
+  exact ⟨by simp [lossy, demo, this], Or.inl rfl⟩
 
 /-- Transparency for a mechanism whose key is `H` of a field list: decidable conditions on the (generated) field list,
 the only assumption about `H` is that it does not collide on the byte strings of this history. -/
@@ -116,7 +127,7 @@ theorem c11_keyed_transparent {Resp : Type} (H : Bytes → Bytes) (fs : List Fie
     (hH : NoCollisionOn H (h.map fun tr => encode fs tr.2.env))
     (hp : recheck = true ∨ ∀ p p' v, accepts p v = accepts p' v) :
     Transparent (keyed H fs deps remote accepts recheck) h := by
-  apply c11_transparent
+  apply c11_transparent _ _ (fun _ => rfl)
   apply keyed_sound H fs deps remote accepts recheck _ hd hc
   · intro r hr
     obtain ⟨tr, htr, rfl⟩ := List.mem_map.mp hr
@@ -129,7 +140,7 @@ the same token under two rules, then another token -/
 example : ∃ h : List (Nat × KReq), h.length = 3 ∧ (∀ tr ∈ h, wt introspection tr.2.env = true) ∧
     NoCollisionOn id (h.map fun tr => encode introspection tr.2.env) ∧
     delimited introspection = true ∧ covers (deps "introspection") introspection = true := by
-  let e (tok : Bytes) : Env := { str := fun s => if s = "token" then tok else if s = "a.id" then [105] else [] }
+  let e (tok : Bytes) : Env := { str := fun s => if s = "arg2" then tok else if s = "recv.id" then [105] else [] }
   refine ⟨[(0, ⟨e [116, 49], 0, true, 600⟩), (1, ⟨e [116, 49], 1, true, 600⟩), (2, ⟨e [116, 50], 1, true, 600⟩)], rfl,
     ?_, fun _ _ _ _ h => h, by decide, by decide⟩
   intro tr htr
@@ -201,23 +212,119 @@ theorem c11_generated_keys_ordered : table.all (fun e => ordered e.2) = true := 
 /-- every key function of the current source writes everything a fresh evaluation reads -/
 theorem c11_generated_keys_cover_deps : table.all (fun e => covers (deps e.1) e.2) = true := by decide
 
-/-- mechanisms with rule-level assertions / expressions repeat them on the cache-hit path -/
-theorem c11_generated_policy_rechecked_on_hit :
-    rechecked.all (fun p => (hitPath.lookup p.1).any (·.contains p.2)) = true := by decide
+/-- no entry of the table lacks a dependency list (a missing clause of `deps` would make `covers` vacuous) -/
+theorem c11_generated_keys_have_deps : table.all (fun e => !(deps e.1).isEmpty) = true := by decide
 
-/-- validation that is not repeated on a hit precedes storing -/
+/-- mechanisms with rule-level assertions / expressions repeat them on every pass through the cache-hit path -/
+theorem c11_generated_policy_rechecked_on_hit :
+    rechecked.all (fun p => recheckOf hitPath p.1) = true := by decide
+
+/-- validation that is not repeated on a hit precedes storing, under no other condition than the configuration of the
+mechanism it belongs to -/
 theorem c11_generated_validated_before_stored :
-    validatedBeforeStored.all (fun p => (missPath.lookup p.1).any (before p.2 "Set")) = true := by decide
+    validatedBeforeStored.all (fun p => (missPath.lookup p.1).any (before p.2)) = true := by decide
+
+/-- every function of the current source that uses the cache of the request context is one of those covered here -/
+theorem c11_generated_cache_sites_known : cacheSites.all (knownCacheSites.contains ·) = true := by decide
+
+/-! ## One cache shared by all its users -/
+
+/-- Key functions starting with different constants never feed the same bytes into the hash, whatever else they write
+and whatever the values are. -/
+theorem c11_distinct_tags_separate (a b : Bytes) (r r' : List Field) (env env' : Env) (hab : a ≠ b)
+    (ha : a.length < limit) (hb : b.length < limit) :
+    encode (.tag a :: r) env ≠ encode (.tag b :: r') env' := by
+  intro h
+  have h' : lpB a ++ encode r env = lpB b ++ encode r' env' := by simpa [encode, flat, encField] using h
+  exact hab (sd_lpB a b _ _ ha hb h').1
+
+/-- hypotheses of `c11_distinct_tags_separate`: the constant of the HTTP cache of the current source and another one -/
+example : tagOf httpCache = some [82, 70, 67, 32, 55, 50, 51, 52] ∧ ([82, 70, 67, 32, 55, 50, 51, 52] : Bytes) ≠ [1] := by
+  decide
+
+/-- `usersSeparated` is satisfiable: every user of the cache starting with a constant of its own (the shape proposed by
+fixes/C11-9) -/
+example : usersSeparated taggedTable = true := by decide
+
+/-- If every function whose result is used as a key of the shared cache starts with a constant of its own
+(`usersSeparated`, decidable on the generated table and reported in the evidence as `key_users_domain_separated`; it
+holds with fixes/C11-9 applied), two different users of the cache — mechanisms of different kinds with the same id,
+endpoint and request included — get equal keys only by a collision of the hash function. Without such constants the
+users are kept apart by the mechanism id and the shape of what they write only. -/
+theorem c11_current_source_users_separate (table : List (String × List Field)) (hsep : usersSeparated table = true)
+    (H : Bytes → Bytes) (n n' : String) (fs fs' : List Field) (env env' : Env)
+    (hn : n ∈ keyUsers) (hn' : n' ∈ keyUsers) (hne : n ≠ n')
+    (hf : table.lookup n = some fs) (hf' : table.lookup n' = some fs') (hk : key H fs env = key H fs' env') :
+    encode fs env ≠ encode fs' env' ∧ H (encode fs env) = H (encode fs' env') := by
+  refine ⟨?_, hk⟩
+  have h1 := List.all_eq_true.mp (List.all_eq_true.mp hsep n hn) n' hn'
+  simp only [Bool.or_eq_true, beq_iff_eq, hf, hf', Option.bind_some] at h1
+  rcases h1 with h1 | h1
+  · exact absurd h1 hne
+  · cases ha : tagOf fs with
+    | none => simp [ha] at h1
+    | some a =>
+      cases hb : tagOf fs' with
+      | none => simp [ha, hb] at h1
+      | some b =>
+        simp only [ha, hb, Bool.and_eq_true, bne_iff_ne, ne_eq, decide_eq_true_eq] at h1
+        obtain ⟨r, rfl⟩ := tagOf_some ha
+        obtain ⟨r', rfl⟩ := tagOf_some hb
+        exact c11_distinct_tags_separate a b r r' env env' h1.1.1 h1.1.2 h1.2
+
+/-! ## Nested digests -/
+
+/-- A digest written into a key stands for the object it was computed from: if the source `s` of the outer function
+holds `H` of the bytes an inner (delimited) key function writes — `sub.Hash()`, `a.e.Hash()`, `f.signer.Hash()`,
+template hashes — then equal outer keys mean that the inner objects agree on every field, or one of the two pairs of
+byte strings is a collision of `H`. -/
+theorem c11_nested_digest (H : Bytes → Bytes) (outer inner : List Field) (s : String) (env env' ei ei' : Env)
+    (ho : delimited outer = true) (hi : delimited inner = true) (hs : Field.lp s ∈ outer)
+    (hw : wt outer env = true) (hw' : wt outer env' = true) (hwi : wt inner ei = true) (hwi' : wt inner ei' = true)
+    (hd : env.str s = key H inner ei) (hd' : env'.str s = key H inner ei')
+    (hk : key H outer env = key H outer env') :
+    (∀ f ∈ inner, f.dep.view ei = f.dep.view ei') ∨
+      (encode outer env ≠ encode outer env' ∧ H (encode outer env) = H (encode outer env')) ∨
+      (encode inner ei ≠ encode inner ei' ∧ H (encode inner ei) = H (encode inner ei')) := by
+  rcases c11_key_separates H outer ho env env' hw hw' hk with h | h
+  · have hv := h (.lp s) hs
+    have hb : env.str s = env'.str s := by simpa [Field.dep, Dep.view] using hv
+    rw [hd, hd'] at hb
+    rcases c11_key_separates H inner hi ei ei' hwi hwi' hb with h2 | h2
+    · exact Or.inl h2
+    · exact Or.inr (Or.inr h2)
+  · exact Or.inr (Or.inl h)
+
+/-- hypotheses of `c11_nested_digest` with `H` the identity: an outer key writing the digest of a one-field object -/
+example : ∃ (env env' ei ei' : Env),
+    delimited [Field.lp "d", .lp "x"] = true ∧ delimited [Field.raw "o"] = true ∧
+    wt [Field.lp "d", .lp "x"] env = true ∧ wt [Field.lp "d", .lp "x"] env' = true ∧
+    env.str "d" = key id [Field.raw "o"] ei ∧ env'.str "d" = key id [Field.raw "o"] ei' ∧
+    key id [Field.lp "d", .lp "x"] env = key id [Field.lp "d", .lp "x"] env' :=
+  ⟨{ str := fun s => if s = "d" then [7, 8] else [1] }, { str := fun s => if s = "d" then [7, 8] else [1] },
+   { str := fun _ => [7, 8] }, { str := fun _ => [7, 8] }, by decide, by decide, by decide, by decide, by decide,
+   by decide, by decide⟩
+
+/-- the nested digests of the current source: every `….Hash()` a mechanism key writes is a length-prefixed field, and
+the function computing it is delimited (so `c11_nested_digest` applies to subject, endpoint, signer, strategies, templates) -/
+example : Field.lp "arg0.Hash()" ∈ remoteAuthorizer ∧ Field.lp "recv.e.Hash()" ∈ remoteAuthorizer ∧
+    Field.lp "arg1.Hash()" ∈ jwtFinalizer ∧ Field.lp "recv.signer.Hash()" ∈ jwtFinalizer ∧
+    delimited subject = true ∧ delimited endpoint = true ∧ delimited jwtSigner = true ∧ delimited template = true := by
+  decide
+
+/-! ## The mechanisms of the current source -/
 
 /-- **Every key function of the current source**, used as the key of a caching mechanism that repeats its rule-level
-validation on a hit whenever the extracted hit path says so: in every history the decisions are those of the uncached
-mechanism. (`name` ranges over the generated table: the six mechanisms, client credentials, the HTTP cache.) -/
+validation on a hit exactly if the *extracted* hit path does so on every pass: in every history the decisions are those
+of the uncached mechanism. (`name` ranges over the generated table: the six mechanisms, client credentials, the HTTP
+cache.) If the source stops re-validating, `recheckOf hitPath name` becomes `false` and the statement only covers
+validation that does not depend on the rule. -/
 theorem c11_current_source_transparent {Resp : Type} (H : Bytes → Bytes) (name : String) (fs : List Field)
     (hf : table.lookup name = some fs) (remote : List View → Option Resp) (accepts : Nat → Resp → Bool)
     (h : List (Nat × KReq)) (hw : ∀ tr ∈ h, wt fs tr.2.env = true)
     (hH : NoCollisionOn H (h.map fun tr => encode fs tr.2.env))
-    (hp : (rechecked.any (·.1 == name)) = true ∨ ∀ p p' v, accepts p v = accepts p' v) :
-    Transparent (keyed H fs (deps name) remote accepts (rechecked.any (·.1 == name))) h := by
+    (hp : recheckOf hitPath name = true ∨ ∀ p p' v, accepts p v = accepts p' v) :
+    Transparent (keyed H fs (deps name) remote accepts (recheckOf hitPath name)) h := by
   have hm := mem_of_lookup table name fs hf
   have hd := List.all_eq_true.mp c11_generated_keys_delimited _ hm
   have hc := List.all_eq_true.mp c11_generated_keys_cover_deps _ hm
@@ -229,15 +336,15 @@ theorem c11_introspection_transparent {Resp : Type} (H : Bytes → Bytes) (remot
     (accepts : Nat → Resp → Bool) (h : List (Nat × KReq))
     (hw : ∀ tr ∈ h, wt introspection tr.2.env = true)
     (hH : NoCollisionOn H (h.map fun tr => encode introspection tr.2.env)) :
-    Transparent (keyed H introspection (deps "introspection") remote accepts true) h :=
-  c11_keyed_transparent H introspection _ remote accepts true h (by decide) (by decide) hw hH (Or.inl rfl)
+    Transparent (keyed H introspection (deps "introspection") remote accepts (recheckOf hitPath "introspection")) h :=
+  c11_current_source_transparent H "introspection" introspection (by decide) remote accepts h hw hH (Or.inl (by decide))
 
 /-- The remote authorizer of the current source, any rules (expressions, payloads, values), subjects and requests. -/
 theorem c11_remote_authorizer_transparent {Resp : Type} (H : Bytes → Bytes) (remote : List View → Option Resp)
     (accepts : Nat → Resp → Bool) (h : List (Nat × KReq))
     (hw : ∀ tr ∈ h, wt remoteAuthorizer tr.2.env = true)
     (hH : NoCollisionOn H (h.map fun tr => encode remoteAuthorizer tr.2.env)) :
-    Transparent (keyed H remoteAuthorizer (deps "remoteAuthorizer") remote accepts true) h :=
-  c11_keyed_transparent H remoteAuthorizer _ remote accepts true h (by decide) (by decide) hw hH (Or.inl rfl)
+    Transparent (keyed H remoteAuthorizer (deps "remoteAuthorizer") remote accepts (recheckOf hitPath "remoteAuthorizer")) h :=
+  c11_current_source_transparent H "remoteAuthorizer" remoteAuthorizer (by decide) remote accepts h hw hH (Or.inl (by decide))
 
 end Heimdall.Props.C11
